@@ -77,6 +77,7 @@ func (ob *Obligation) smt(withModel bool) string {
 		}
 		hyps = append(hyps, extra...)
 	}
+	hyps = relevant(hyps, goal)
 	vars := map[string]string{}
 	ufs := map[string]bool{}
 	for _, h := range hyps {
@@ -233,6 +234,56 @@ type solveCacheEntry struct {
 var solveMu sync.Mutex
 var solveCache = map[string]solveResult{}
 
+// batchDischarge first tries, per program point, the conjunction of all obligations
+// generated there under the same hypotheses; when that single query is unsat every
+// member is discharged. Members of batches that are not proved are solved individually.
+func batchDischarge(obls []*Obligation, dir string, timeoutS int, agree bool, workers int) {
+	groups := map[string][]*Obligation{}
+	var order []string
+	for _, ob := range obls {
+		if ob.Status != "" || ob.Expect != "unsat" || ob.Goal.IsTrue() {
+			continue
+		}
+		key := fmt.Sprintf("%s|%d|%s", ob.Func, len(ob.Hyps), strings.Join(ob.Trace, ">"))
+		if _, ok := groups[key]; !ok {
+			order = append(order, key)
+		}
+		groups[key] = append(groups[key], ob)
+	}
+	var batches []*Obligation
+	var members [][]*Obligation
+	for _, k := range order {
+		g := groups[k]
+		if len(g) < 3 {
+			continue
+		}
+		var goals []*Term
+		for _, ob := range g {
+			goals = append(goals, ob.Goal)
+		}
+		b := &Obligation{Name: "batch", Func: g[0].Func, Kind: "batch", Goal: And(goals...), Expect: "unsat", Hyps: g[0].Hyps, Trace: g[0].Trace}
+		batches = append(batches, b)
+		members = append(members, g)
+	}
+	if len(batches) > 0 {
+		discharge(batches, dir, timeoutS, agree, workers)
+		for i, b := range batches {
+			if b.Status != "discharged" {
+				continue
+			}
+			for _, ob := range members[i] {
+				ob.Status = "discharged"
+				ob.Backend = b.Backend
+				ob.TimeS = b.TimeS / float64(len(members[i]))
+				ob.SMTSize = b.SMTSize
+				ob.Batched = true
+				ob.Hyps = nil
+			}
+		}
+	}
+	discharge(obls, dir, timeoutS, agree, workers)
+}
+
 func discharge(obls []*Obligation, dir string, timeoutS int, agree bool, workers int) {
 	os.MkdirAll(dir, 0o755)
 	var wg sync.WaitGroup
@@ -249,10 +300,34 @@ func discharge(obls []*Obligation, dir string, timeoutS int, agree bool, workers
 			continue
 		}
 		texts[i] = ob.smt(true)
-		ob.Hyps = nil // release memory
+		if ob.Kind != "batch" {
+			ob.Hyps = nil // release memory
+		}
 	}
+	firstOf := map[string]int{}
+	dupOf := map[int]int{}
 	for i, ob := range obls {
 		if ob.Status != "" {
+			continue
+		}
+		if j, ok := firstOf[texts[i]]; ok {
+			dupOf[i] = j
+			continue
+		}
+		firstOf[texts[i]] = i
+	}
+	defer func() {
+		for i, j := range dupOf {
+			src := obls[j]
+			ob := obls[i]
+			ob.Status, ob.Backend, ob.Model, ob.File, ob.SMTSize = src.Status, src.Backend, src.Model, src.File, src.SMTSize
+		}
+	}()
+	for i, ob := range obls {
+		if ob.Status != "" {
+			continue
+		}
+		if _, isDup := dupOf[i]; isDup {
 			continue
 		}
 		wg.Add(1)
@@ -304,4 +379,60 @@ func discharge(obls []*Obligation, dir string, timeoutS int, agree bool, workers
 		}(i, ob)
 	}
 	wg.Wait()
+}
+
+// relevant keeps the hypotheses connected to the goal through shared variables
+// (cone of influence). Dropping hypotheses only weakens the premise, so a proof
+// found this way is a proof of the original obligation.
+func relevant(hyps []*Term, goal *Term) []*Term {
+	if len(hyps) < 40 {
+		return hyps
+	}
+	type info struct {
+		vars map[string]string
+	}
+	infos := make([]info, len(hyps))
+	for i, h := range hyps {
+		v := map[string]string{}
+		collectSyms(h, v, map[string]bool{}, map[string]bool{})
+		infos[i] = info{v}
+	}
+	reach := map[string]string{}
+	collectSyms(goal, reach, map[string]bool{}, map[string]bool{})
+	keep := make([]bool, len(hyps))
+	for i := range hyps {
+		if len(infos[i].vars) == 0 {
+			keep[i] = true
+		}
+	}
+	changed := true
+	for changed {
+		changed = false
+		for i := range hyps {
+			if keep[i] {
+				continue
+			}
+			hit := false
+			for v := range infos[i].vars {
+				if _, ok := reach[v]; ok {
+					hit = true
+					break
+				}
+			}
+			if hit {
+				keep[i] = true
+				changed = true
+				for v, s := range infos[i].vars {
+					reach[v] = s
+				}
+			}
+		}
+	}
+	var out []*Term
+	for i, h := range hyps {
+		if keep[i] {
+			out = append(out, h)
+		}
+	}
+	return out
 }
